@@ -213,7 +213,7 @@ def run(run):
                 'non-trivial = some field non-zero / list non-empty')
     run.assumptions = ['adapter table vmon/adapters.py', 'spec codec only used to bound sizes (<= 253-byte PDU)']
     installed = contracts.install_purity(recorder=None)
-    per_kind = run.scale(600, 12000)
+    per_kind = run.scale(600, 50000)
     for k in gen.KINDS:
         d, fc, sub = k
         for i in range(per_kind):
